@@ -229,6 +229,10 @@ class Chipset(object):
             self.log.debug("invalid frame start sequence")
             raise IOError(errno.EIO, os.strerror(errno.EIO))
 
+        if len(frame) < 3:
+            self.log.error("frame without frame identifier")
+            raise IOError(errno.EIO, os.strerror(errno.EIO))
+
         if not sum(frame) & 0xFF == 0:
             self.log.error("frame data checksum error")
             raise IOError(errno.EIO, os.strerror(errno.EIO))
@@ -240,7 +244,7 @@ class Chipset(object):
             self.log.error("invalid frame identifier")
             raise IOError(errno.EIO, os.strerror(errno.EIO))
 
-        if not frame[1] == cmd_code + 1:
+        if len(frame) < 4 or not frame[1] == cmd_code + 1:
             self.log.error("unexpected response code")
             raise IOError(errno.EIO, os.strerror(errno.EIO))
 
